@@ -157,6 +157,7 @@ static int m_find_key(const model_t *m, long key)
 }
 
 /* ------------------------------------------------------------------ C02: lists */
+static long readback_keys = 6;
 static void list_readback(int slot, const char *when)
 {
     spif_list_t l = C[slot];
@@ -187,17 +188,52 @@ static void list_readback(int slot, const char *when)
     }
     if (SPIF_ITERATOR_HAS_NEXT(it)) FAILM("iterator", "%s: iterator still has_next after %d elements", when, m->len);
     SPIF_ITERATOR_DEL(it);
-    if (m->len) {
-        arr = SPIF_LIST_TO_ARRAY(l);
-        if (!arr || !sa_readable(arr, (size_t)m->len * sizeof(spif_obj_t))) FAILM("to_array", "%s: to_array result is not a live block of %d pointers", when, m->len);
+    {
+        arr = SPIF_LIST_TO_ARRAY(l);                 /* (of an empty list: nothing, or an array with nothing in it) */
+        if (m->len && (!arr || !sa_readable(arr, (size_t)m->len * sizeof(spif_obj_t)))) FAILM("to_array", "%s: to_array result is not a live block of %d pointers", when, m->len);
+        if (!m->len && arr && !sa_readable(arr, 0)) FAILM("to_array", "%s: to_array of an empty list returned something that is not a live block", when);
         for (int i = 0; i < m->len; i++) {
             elem_ident(arr[i], 0, &r, &k, &v, when);
             if (r != m->root[i]) FAILM("to_array", "%s: to_array[%d] is element #%ld, ideal sequence has #%ld", when, i, r, m->root[i]);
         }
-        sim_free(arr);
+        if (arr) sim_free(arr);
+    }
+    {
+        /* far outside positions are refused like near ones */
+        static const long far[] = { 2, 50, 1L << 30 };
+        for (int q = 0; q < 3; q++) {
+            if (SPIF_LIST_GET(l, (spif_listidx_t)(m->len + far[q]))) FAILM("get-refusal", "%s: get(len+%ld) returned an element", when, far[q]);
+            if (SPIF_LIST_GET(l, (spif_listidx_t)(-m->len - far[q]))) FAILM("get-refusal", "%s: get(-len-%ld) returned an element", when, far[q]);
+        }
+    }
+    for (long key = -1; key <= readback_keys && (m->len <= 16 || R.cur_op_index % 4 == 0); key++) {
+        /* every value there is, present or not: position of the first equal element, the element itself, membership
+           (on long lists only after every fourth operation: the sweep is quadratic) */
+        vobj_t probe = vobj_new(key);
+        int j = m_find_key(m, key), gi = (int)SPIF_LIST_INDEX(l, probe);
+        spif_obj_t gf = SPIF_LIST_FIND(l, probe);
+        spif_bool_t gc = SPIF_LIST_CONTAINS(l, probe);
+        if (gi != j) FAILM("index", "%s: index(%ld) returned %d, ideal sequence says %d", when, key, gi, j);
+        if ((j < 0) != (gf == NULL)) FAILM("find", "%s: find(%ld) returned %s, ideal sequence says the value is %s", when, key, gf ? "an element" : "NULL", j < 0 ? "absent" : "present");
+        if (gf) { elem_ident(gf, 0, &r, &k, &v, when); if (r != m->root[j]) FAILM("find", "%s: find(%ld) returned element #%ld, the first equal element is #%ld", when, key, r, m->root[j]); }
+        if ((gc ? 1 : 0) != (j >= 0)) FAILM("contains", "%s: contains(%ld) returned %d, ideal sequence says %d", when, key, (int)gc, j >= 0);
+        SPIF_OBJ_DEL(probe);
     }
 }
 
+/* positions can be given symbolically (a[last] == 1): class * 100 + delta, resolved against the length the sequence has when the
+   operation runs -- a generator's own estimate of that length drifts as refusals and misses accumulate */
+static long resolve_idx(long code, int len)
+{
+    long d = code % 100;
+    switch (code / 100) {
+    case 0: return -len - 2; case 1: return -len - 1; case 2: return -len; case 3: return -1; case 4: return 0; case 5: return 1;
+    case 6: return len / 2; case 7: return len - 1; case 8: return len; case 9: return len + 1 + d % 3;
+    case 10: return len ? d % len : 0; case 11: return -2; case 12: return -(len / 2); case 13: return len / 2 + 1; case 14: return len + 50;
+    case 15: return len ? -(d % len) - 1 : -1;
+    default: return 0;
+    }
+}
 static void list_pass(const plan_t *p)
 {
     memset(C, 0, sizeof(C));
@@ -226,9 +262,9 @@ static void list_pass(const plan_t *p)
             m_ins(m, k[0] == 'a' ? m->len : 0, e->root, e->key, 0);
         } else if (!strcmp(k, "insert_at")) {
             vobj_t e;
-            long idx = o->a[2], j = idx < 0 ? idx + m->len : idx;
+            long idx = o->na > 3 && o->a[3] == 1 ? resolve_idx(o->a[2], m->len) : o->a[2], j = idx < 0 ? idx + m->len : idx;
             spif_bool_t b;
-            if (j > MAXLEN / 2) continue;
+            if (j > MAXLEN / 2 || m->len >= MAXLEN - 60) continue;
             e = vobj_new(o->a[1]);
             b = SPIF_LIST_INSERT_AT(l, e, (spif_listidx_t)idx);
             if (j < 0) {
@@ -242,6 +278,20 @@ static void list_pass(const plan_t *p)
                 while (m->len < j) m_ins(m, m->len, HOLE, 0, 0);
                 m_ins(m, (int)j, e->root, e->key, 0);
             }
+        } else if (!strcmp(k, "remove") && o->na > 2 && o->a[2] == 1 && m->len) {
+            /* the probe is an element of the list itself (what get() hands out): the first element equal to it goes */
+            int pos = (int)(o->a[1] % m->len), j;
+            spif_obj_t own = SPIF_LIST_GET(l, (spif_listidx_t)pos), got;
+            long r, kk, v;
+            if (m->root[pos] == HOLE || !own) continue;
+            j = m_find_key(m, m->key[pos]);
+            got = SPIF_LIST_REMOVE(l, own);
+            if (!got) FAILM("remove", "remove(get(%d)) returned NULL", pos);
+            elem_ident(got, 0, &r, &kk, &v, k);
+            if (r != m->root[j]) FAILM("remove", "remove(get(%d)) returned element #%ld, the first equal element is #%ld", pos, r, m->root[j]);
+            m_del(m, j);
+            SPIF_OBJ_DEL(got);
+            probe_hit("probe_is_own_element");
         } else if (!strcmp(k, "remove")) {
             vobj_t probe = vobj_new(o->a[1]);
             spif_obj_t got = SPIF_LIST_REMOVE(l, probe);
@@ -258,7 +308,7 @@ static void list_pass(const plan_t *p)
                 SPIF_OBJ_DEL(got);
             }
         } else if (!strcmp(k, "remove_at")) {
-            long idx = o->a[1], j = idx < 0 ? idx + m->len : idx;
+            long idx = o->na > 2 && o->a[2] == 1 ? resolve_idx(o->a[1], m->len) : o->a[1], j = idx < 0 ? idx + m->len : idx;
             spif_obj_t got = SPIF_LIST_REMOVE_AT(l, (spif_listidx_t)idx);
             if (j < 0 || j >= m->len) { probe_hit("remove_at_refused"); if (got) FAILM("remove_at-refusal", "remove_at(%ld) on a %d-element list returned an element", idx, m->len); }
             else {
@@ -302,6 +352,24 @@ static void list_pass(const plan_t *p)
             }
             SPIF_ITERATOR_DEL(it);
             probe_hit("iterator_one_past_end");
+        } else if (!strcmp(k, "iter_partial")) {
+            /* two iterators over one list: one is advanced part of the way and deleted (its cursor is a node the list owns),
+               the other then walks the whole list */
+            spif_iterator_t a = SPIF_LIST_ITERATOR(l), b = SPIF_LIST_ITERATOR(l);
+            int adv = m->len ? (int)(o->a[1] % (m->len + 1)) : 0;
+            long r, kk, v;
+            for (int q = 0; q < adv; q++) SPIF_ITERATOR_NEXT(a);
+            SPIF_ITERATOR_DEL(a);
+            for (int q = 0; q < m->len; q++) {
+                spif_obj_t e;
+                if (!SPIF_ITERATOR_HAS_NEXT(b)) FAILM("iterator", "second iterator reports exhaustion after %d of %d elements", q, m->len);
+                e = SPIF_ITERATOR_NEXT(b);
+                elem_ident(e, 0, &r, &kk, &v, k);
+                if (r != m->root[q]) FAILM("iterator", "second iterator yielded element #%ld at step %d, ideal sequence has #%ld", r, q, m->root[q]);
+            }
+            if (SPIF_ITERATOR_HAS_NEXT(b)) FAILM("iterator", "second iterator still has_next after the last element");
+            SPIF_ITERATOR_DEL(b);
+            probe_hit("iterator_abandoned_midway");
         } else if (!strcmp(k, "dup")) {
             int d = (int)o->a[1];
             int has_hole = 0;
@@ -326,6 +394,7 @@ static void list_pass(const plan_t *p)
 }
 
 /* ------------------------------------------------------------------ C04: vectors */
+static long vec_keys = 9;
 static void vector_readback(int slot, const char *when)
 {
     spif_vector_t v = C[slot];
@@ -359,16 +428,29 @@ static void vector_readback(int slot, const char *when)
     }
     if (SPIF_ITERATOR_HAS_NEXT(it)) FAILM("iterator", "%s: iterator still has_next after %d elements", when, n);
     SPIF_ITERATOR_DEL(it);
-    if (n) {
-        spif_obj_t *arr = SPIF_VECTOR_TO_ARRAY(v);
-        if (!arr || !sa_readable(arr, (size_t)n * sizeof(spif_obj_t))) FAILM("to_array", "%s: to_array result is not a live block of %d pointers", when, n);
+    {
+        spif_obj_t *arr = SPIF_VECTOR_TO_ARRAY(v);      /* (of an empty vector: nothing, or an array with nothing in it) */
+        if (n && (!arr || !sa_readable(arr, (size_t)n * sizeof(spif_obj_t)))) FAILM("to_array", "%s: to_array result is not a live block of %d pointers", when, n);
+        if (!n && arr && !sa_readable(arr, 0)) FAILM("to_array", "%s: to_array of an empty vector returned something that is not a live block", when);
         for (int i = 0; i < n; i++) if (arr[i] != el[i]) FAILM("to_array", "%s: to_array[%d] differs from the stored element", when, i);
-        sim_free(arr);
+        if (arr) sim_free(arr);
+    }
+    for (long key = -1; key <= vec_keys && (m->len <= 16 || R.cur_op_index % 4 == 0); key++) {
+        /* every value there is, present or not */
+        vobj_t probe = vobj_new(key);
+        int present = m_find_key(m, key) >= 0;
+        spif_obj_t gf = SPIF_VECTOR_FIND(v, probe);
+        spif_bool_t gc = SPIF_VECTOR_CONTAINS(v, probe);
+        if ((gf != NULL) != present) FAILM("find", "%s: find(key %ld) returned %s, ideal multiset says the key is %s", when, key, gf ? "an element" : "NULL", present ? "present" : "absent");
+        if (gf) { elem_ident(gf, 0, &r, &k, &vv, when); if (k != key) FAILM("find", "%s: find(key %ld) returned an element with key %ld", when, key, k); }
+        if ((gc ? 1 : 0) != present) FAILM("contains", "%s: contains(key %ld) returned %d, ideal multiset says %d", when, key, (int)gc, present);
+        SPIF_OBJ_DEL(probe);
     }
 }
 
 static void vector_pass(const plan_t *p)
 {
+    vec_keys = plan_get(p, "keys", 8) + 1;
     memset(C, 0, sizeof(C));
     for (int i = 0; i < NSLOT; i++) M[i].len = 0;
     vobj_reset();
@@ -398,6 +480,35 @@ static void vector_pass(const plan_t *p)
             e = vobj_new(o->a[1]);
             if (!SPIF_VECTOR_INSERT(v, e)) FAILM("return", "insert returned FALSE");
             m_ins(m, m->len, e->root, e->key, 0);
+        } else if (!strcmp(k, "remove") && o->na > 2 && o->a[2] == 1) {
+            /* remove(v, find(v, key)): the probe is the stored element itself */
+            vobj_t probe = vobj_new(o->a[1]);
+            spif_obj_t own = SPIF_VECTOR_FIND(v, probe), got;
+            long r, kk, vv;
+            int j = -1;
+            SPIF_OBJ_DEL(probe);
+            if (!own) continue;
+            got = SPIF_VECTOR_REMOVE(v, own);
+            if (!got) FAILM("remove", "remove(find(key %ld)) returned NULL", o->a[1]);
+            elem_ident(got, 0, &r, &kk, &vv, k);
+            if (kk != o->a[1]) FAILM("remove", "remove(find(key %ld)) returned an element with key %ld", o->a[1], kk);
+            for (int q = 0; q < m->len; q++) if (m->root[q] == r) j = q;
+            if (j < 0) FAILM("remove", "remove returned element #%ld which the ideal multiset does not hold", r);
+            m_del(m, j); SPIF_OBJ_DEL(got);
+            probe_hit("probe_is_own_element");
+        } else if (!strcmp(k, "iter_beyond") || !strcmp(k, "iter_partial")) {
+            spif_iterator_t a = SPIF_VECTOR_ITERATOR(v), b = SPIF_VECTOR_ITERATOR(v);
+            int adv = k[5] == 'p' ? (m->len ? (int)(o->a[1] % (m->len + 1)) : 0) : m->len, cnt = 0;
+            for (int q = 0; q < adv; q++) SPIF_ITERATOR_NEXT(a);
+            if (k[5] == 'b') for (int q = 0; q < (int)(o->a[1] % 3) + 1; q++) {
+                if (SPIF_ITERATOR_HAS_NEXT(a)) FAILM("iterator", "has_next is true beyond the end");
+                if (SPIF_ITERATOR_NEXT(a)) FAILM("iterator", "next() beyond the end returned an element");
+            }
+            SPIF_ITERATOR_DEL(a);
+            while (SPIF_ITERATOR_HAS_NEXT(b) && cnt <= m->len) { SPIF_ITERATOR_NEXT(b); cnt++; }
+            if (cnt != m->len) FAILM("iterator", "a second iterator yields %d elements after the first was deleted midway, the vector has %d", cnt, m->len);
+            SPIF_ITERATOR_DEL(b);
+            probe_hit(k[5] == 'b' ? "iterator_one_past_end" : "iterator_abandoned_midway");
         } else if (!strcmp(k, "find") || !strcmp(k, "contains") || !strcmp(k, "remove")) {
             vobj_t probe = vobj_new(o->a[1]);
             int present = m_find_key(m, o->a[1]) >= 0;
@@ -465,6 +576,7 @@ static void check_list_of(spif_list_t got, const model_t *m, int what /*0 keys 1
     }
 }
 
+static long map_keys = 9;
 static void map_readback(int slot, const char *when)
 {
     spif_map_t mp = C[slot];
@@ -486,8 +598,8 @@ static void map_readback(int slot, const char *when)
     }
     if (SPIF_ITERATOR_HAS_NEXT(it)) FAILM("iterator", "%s: iterator still has_next after %d pairs", when, m->len);
     SPIF_ITERATOR_DEL(it);
-    /* every key of a small universe: get / has_key agree with the dictionary */
-    for (long key = -1; key <= 9; key++) {
+    /* every key of the universe: get / has_key agree with the dictionary (on big maps only after every fourth operation) */
+    for (long key = -1; key <= map_keys && (m->len <= 16 || R.cur_op_index % 4 == 0); key++) {
         vobj_t probe = vobj_new(key);
         int j = m_find_key(m, key);
         spif_obj_t got = SPIF_MAP_GET(mp, probe);
@@ -505,6 +617,7 @@ static void map_readback(int slot, const char *when)
 static void map_pass(const plan_t *p)
 {
     long next_val = 100;
+    map_keys = plan_get(p, "keys", 9);
     memset(C, 0, sizeof(C));
     for (int i = 0; i < NSLOT; i++) M[i].len = 0;
     vobj_reset();
@@ -554,7 +667,15 @@ static void map_pass(const plan_t *p)
         } else if (!strcmp(k, "remove")) {
             vobj_t probe = vobj_new(o->a[1]);
             int j = m_find_key(m, o->a[1]);
-            spif_obj_t got = SPIF_MAP_REMOVE(mp, probe);
+            spif_obj_t got, ownkey = NULL;
+            if (o->na > 2 && o->a[2] == 1 && j >= 0) {
+                /* the key handed in is the map's own key object (taken from an iterated pair), not a fresh one */
+                spif_iterator_t it = SPIF_MAP_ITERATOR(mp);
+                for (int q = 0; q <= j && SPIF_ITERATOR_HAS_NEXT(it); q++) { spif_obj_t pr = SPIF_ITERATOR_NEXT(it); if (q == j && pr && sa_readable(pr, sizeof(struct spif_objpair_t_struct))) ownkey = SPIF_OBJPAIR(pr)->key; }
+                SPIF_ITERATOR_DEL(it);
+                if (ownkey) probe_hit("probe_is_own_element");
+            }
+            got = SPIF_MAP_REMOVE(mp, ownkey ? ownkey : SPIF_OBJ(probe));
             SPIF_OBJ_DEL(probe);
             if ((got != NULL) != (j >= 0)) FAILM("remove", "remove(key %ld) returned %s, ideal dictionary says the key is %s", o->a[1], got ? "a pair" : "NULL", j >= 0 ? "present" : "absent");
             if (got) {
@@ -575,13 +696,36 @@ static void map_pass(const plan_t *p)
             for (int q = 0; q < m->len; q++) if (m->val[q] == val) present = 1;
             SPIF_OBJ_DEL(probe);
             if ((got ? 1 : 0) != present) FAILM("has_value", "has_value(%ld) returned %d, ideal dictionary says %d", val, (int)got, present);
+        } else if (!strcmp(k, "iter_beyond") || !strcmp(k, "iter_partial")) {
+            spif_iterator_t a = SPIF_MAP_ITERATOR(mp), b = SPIF_MAP_ITERATOR(mp);
+            int adv = k[5] == 'p' ? (m->len ? (int)(o->a[1] % (m->len + 1)) : 0) : m->len, cnt = 0;
+            for (int q = 0; q < adv; q++) SPIF_ITERATOR_NEXT(a);
+            if (k[5] == 'b') for (int q = 0; q < (int)(o->a[1] % 3) + 1; q++) {
+                if (SPIF_ITERATOR_HAS_NEXT(a)) FAILM("iterator", "has_next is true beyond the end");
+                if (SPIF_ITERATOR_NEXT(a)) FAILM("iterator", "next() beyond the end returned a pair");
+            }
+            SPIF_ITERATOR_DEL(a);
+            while (SPIF_ITERATOR_HAS_NEXT(b) && cnt <= m->len) { SPIF_ITERATOR_NEXT(b); cnt++; }
+            if (cnt != m->len) FAILM("iterator", "a second iterator yields %d pairs after the first was deleted midway, the map has %d", cnt, m->len);
+            SPIF_ITERATOR_DEL(b);
+            probe_hit(k[5] == 'b' ? "iterator_one_past_end" : "iterator_abandoned_midway");
         } else if (!strcmp(k, "keys") || !strcmp(k, "values") || !strcmp(k, "pairs")) {
             int what = k[0] == 'k' ? 0 : k[0] == 'v' ? 1 : 2, into = (int)o->a[1];
             spif_list_t given = NULL, got;
-            if (into) { given = SPIF_LIST_NEW(array); SPIF_LIST_APPEND(given, vobj_new(-5)); probe_hit("get_list_into_existing"); }
+            int gsize = 0;
+            if (into) {
+                /* a list to add to: of any of the three classes, with 0, 1 or 2 entries of its own (into == 1: an array with one) */
+                int gcls = (into - 1) % 3;
+                gsize = ((into - 1) / 3 + 1) % 3;
+                given = gcls == 0 ? SPIF_LIST_NEW(array) : gcls == 1 ? SPIF_LIST_NEW(linked_list) : SPIF_LIST_NEW(dlinked_list);
+                for (int q = 0; q < gsize; q++) SPIF_LIST_APPEND(given, vobj_new(-5 - q));
+                probe_hit("get_list_into_existing");
+                if (gcls) probe_hit("get_list_into_linked_list");
+                if (!gsize) probe_hit("get_list_into_empty_list");
+            }
             got = what == 0 ? SPIF_MAP_GET_KEYS(mp, given) : what == 1 ? SPIF_MAP_GET_VALUES(mp, given) : SPIF_MAP_GET_PAIRS(mp, given);
             if (into && got != given) FAILM("get_list", "%s did not return the list it was given", k);
-            check_list_of(got, m, what, into ? 1 : 0, k);
+            check_list_of(got, m, what, gsize, k);
             SPIF_LIST_DEL(got);
         } else if (!strcmp(k, "dup")) {
             int d = (int)o->a[1];
@@ -633,61 +777,82 @@ static long gen_idx(rng_t *r, int len)
 
 static void gen_list(plan_t *p, rng_t *r)
 {
-    int nops = rng_range(r, 3, 40 * sim_tier_scale()), len[NSLOT] = { 0, 0 }, ex[NSLOT] = { 1, 0 };
+    int nops = rng_range(r, 3, 40 * sim_tier_scale()), len[NSLOT] = { 0, 0 }, ex[NSLOT] = { 1, 0 }, cap = 24;
     gen_alloc_knobs(p, r);
     plan_op(p, 0, "new", 1, 0L);
+    if (rng_chance(r, 1, 8)) {
+        /* one plan in eight works on a long list: growth steps of the array, long walks of the linked ones */
+        int pre = rng_range(r, 30, 100);
+        for (int q = 0; q < pre; q++) plan_op(p, 0, rng_chance(r, 1, 4) ? "prepend" : "append", 2, 0L, (long)rng_below(r, 6));
+        len[0] = pre; cap = 110;
+    }
     for (int i = 0; i < nops; i++) {
         int s = ex[1] && rng_chance(r, 1, 2) ? 1 : 0, k = (int)rng_below(r, 100);
         long key = (long)rng_below(r, 6);
         if (!ex[s]) { plan_op(p, 0, "new", 1, (long)s); ex[s] = 1; len[s] = 0; continue; }
-        if (len[s] > 24 && k < 45) k = 50 + k % 20;
+        if (len[s] > cap && k < 45) k = 50 + k % 20;
         if (k < 18) { plan_op(p, 0, "append", 2, (long)s, key); len[s]++; }
         else if (k < 28) { plan_op(p, 0, "prepend", 2, (long)s, key); len[s]++; }
-        else if (k < 45) { long idx = gen_idx(r, len[s]); plan_op(p, 0, "insert_at", 3, (long)s, key, idx); { long j = idx < 0 ? idx + len[s] : idx; if (j >= 0) len[s] = (int)(j > len[s] ? j + 1 : len[s] + 1); } }
-        else if (k < 55) { plan_op(p, 0, "remove", 2, (long)s, key); if (len[s]) len[s]--; }
-        else if (k < 66) { plan_op(p, 0, "remove_at", 2, (long)s, gen_idx(r, len[s])); if (len[s]) len[s]--; }
+        else if (k < 45) {
+            if (rng_chance(r, 1, 2)) { long code = (long)rng_below(r, 16) * 100 + (long)rng_below(r, 100); plan_op(p, 0, "insert_at", 4, (long)s, key, code, 1L); len[s]++; }      /* position resolved when the op runs */
+            else { long idx = gen_idx(r, len[s]); plan_op(p, 0, "insert_at", 3, (long)s, key, idx); { long j = idx < 0 ? idx + len[s] : idx; if (j >= 0) len[s] = (int)(j > len[s] ? j + 1 : len[s] + 1); } }
+        }
+        else if (k < 55) { if (rng_chance(r, 1, 5)) plan_op(p, 0, "remove", 3, (long)s, (long)rng_below(r, 1000), 1L); else plan_op(p, 0, "remove", 2, (long)s, key); if (len[s]) len[s]--; }
+        else if (k < 66) { if (rng_chance(r, 1, 2)) plan_op(p, 0, "remove_at", 3, (long)s, (long)rng_below(r, 16) * 100 + (long)rng_below(r, 100), 1L); else plan_op(p, 0, "remove_at", 2, (long)s, gen_idx(r, len[s])); if (len[s]) len[s]--; }
         else if (k < 71) plan_op(p, 0, "index", 2, (long)s, key);
         else if (k < 76) plan_op(p, 0, "find", 2, (long)s, key);
         else if (k < 79) plan_op(p, 0, "contains", 2, (long)s, key);
         else if (k < 88) plan_op(p, 0, "reverse", 1, (long)s);
-        else if (k < 91) plan_op(p, 0, "iter_beyond", 2, (long)s, (long)rng_below(r, 3));
+        else if (k < 90) plan_op(p, 0, "iter_beyond", 2, (long)s, (long)rng_below(r, 3));
+        else if (k < 92) plan_op(p, 0, "iter_partial", 2, (long)s, (long)rng_below(r, 1000));
         else if (k < 96) { if (!ex[1 - s]) { plan_op(p, 0, "dup", 2, (long)s, (long)(1 - s)); ex[1 - s] = 1; len[1 - s] = len[s]; } }
         else { plan_op(p, 0, "del", 1, (long)s); ex[s] = 0; len[s] = 0; }
     }
 }
 static void gen_vector(plan_t *p, rng_t *r)
 {
-    int nops = rng_range(r, 3, 40 * sim_tier_scale()), len[NSLOT] = { 0, 0 }, ex[NSLOT] = { 1, 0 };
+    int nops = rng_range(r, 3, 40 * sim_tier_scale()), len[NSLOT] = { 0, 0 }, ex[NSLOT] = { 1, 0 }, cap = 24, krange = 8;
     gen_alloc_knobs(p, r);
     plan_op(p, 0, "new", 1, 0L);
+    if (rng_chance(r, 1, 8)) {
+        /* one plan in eight works on a big vector over a wide key range: bisection depth, growth steps, long walks */
+        int pre = rng_range(r, 30, 100);
+        krange = 48; plan_knob(p, "keys", krange);
+        for (int q = 0; q < pre; q++) plan_op(p, 0, "insert", 2, 0L, (long)rng_below(r, (uint32_t)krange));
+        len[0] = pre; cap = 110;
+    }
     for (int i = 0; i < nops; i++) {
         int s = ex[1] && rng_chance(r, 1, 2) ? 1 : 0, k = (int)rng_below(r, 100);
-        long key = (long)rng_below(r, 8);
+        long key = (long)rng_below(r, (uint32_t)krange), edge = rng_chance(r, 1, 6) ? -1L : rng_chance(r, 1, 6) ? (long)krange + 1 : key;
         if (!ex[s]) { plan_op(p, 0, "new", 1, (long)s); ex[s] = 1; len[s] = 0; continue; }
-        if (len[s] > 24 && k < 45) k = 50 + k % 20;
+        if (len[s] > cap && k < 45) k = 50 + k % 20;
         if (k < 45) { plan_op(p, 0, "insert", 2, (long)s, key); len[s]++; }
-        else if (k < 62) { plan_op(p, 0, "remove", 2, (long)s, key); if (len[s]) len[s]--; }
-        else if (k < 80) plan_op(p, 0, "find", 2, (long)s, rng_chance(r, 1, 6) ? -1L : rng_chance(r, 1, 6) ? 9L : key);
-        else if (k < 90) plan_op(p, 0, "contains", 2, (long)s, rng_chance(r, 1, 6) ? -1L : rng_chance(r, 1, 6) ? 9L : key);
+        else if (k < 62) { if (rng_chance(r, 1, 5)) plan_op(p, 0, "remove", 3, (long)s, key, 1L); else plan_op(p, 0, "remove", 2, (long)s, edge); if (len[s]) len[s]--; }
+        else if (k < 76) plan_op(p, 0, "find", 2, (long)s, edge);
+        else if (k < 80) plan_op(p, 0, rng_chance(r, 1, 2) ? "iter_beyond" : "iter_partial", 2, (long)s, (long)rng_below(r, 1000));
+        else if (k < 90) plan_op(p, 0, "contains", 2, (long)s, edge);
         else if (k < 96) { if (!ex[1 - s]) { plan_op(p, 0, "dup", 2, (long)s, (long)(1 - s)); ex[1 - s] = 1; len[1 - s] = len[s]; } }
         else { plan_op(p, 0, "del", 1, (long)s); ex[s] = 0; len[s] = 0; }
     }
 }
 static void gen_map(plan_t *p, rng_t *r)
 {
-    int nops = rng_range(r, 3, 40 * sim_tier_scale()), ex[NSLOT] = { 1, 0 }, krange = rng_chance(r, 1, 3) ? 3 : 9;
+    int nops = rng_range(r, 3, 40 * sim_tier_scale()), ex[NSLOT] = { 1, 0 }, krange = rng_chance(r, 1, 3) ? 3 : rng_chance(r, 1, 5) ? 48 : 9;
     gen_alloc_knobs(p, r);
+    plan_knob(p, "keys", krange);
     plan_op(p, 0, "new", 1, 0L);
+    if (krange == 48) { int pre = rng_range(r, 20, 60); for (int q = 0; q < pre; q++) plan_op(p, 0, "set", 3, 0L, (long)rng_below(r, 48), 0L); }     /* a large key set */
     for (int i = 0; i < nops; i++) {
         int s = ex[1] && rng_chance(r, 1, 2) ? 1 : 0, k = (int)rng_below(r, 100);
         long key = (long)rng_below(r, (uint32_t)krange);
         if (!ex[s]) { plan_op(p, 0, "new", 1, (long)s); ex[s] = 1; continue; }
         if (k < 40) { int pair = rng_chance(r, 1, 6); plan_op(p, 0, pair ? "set_pair" : "set", 3, (long)s, key, !pair && rng_chance(r, 1, 8) ? 2L : (long)rng_chance(r, 1, 2)); }
-        else if (k < 62) plan_op(p, 0, "remove", 2, (long)s, key);
-        else if (k < 70) plan_op(p, 0, "has_value", 2, (long)s, (long)rng_range(r, -1, 6));
-        else if (k < 76) plan_op(p, 0, "keys", 2, (long)s, (long)rng_chance(r, 1, 3));
-        else if (k < 82) plan_op(p, 0, "values", 2, (long)s, (long)rng_chance(r, 1, 3));
-        else if (k < 88) plan_op(p, 0, "pairs", 2, (long)s, (long)rng_chance(r, 1, 3));
+        else if (k < 62) { if (rng_chance(r, 1, 5)) plan_op(p, 0, "remove", 3, (long)s, key, 1L); else plan_op(p, 0, "remove", 2, (long)s, key); }
+        else if (k < 68) plan_op(p, 0, "has_value", 2, (long)s, (long)rng_range(r, -1, 6));
+        else if (k < 70) plan_op(p, 0, rng_chance(r, 1, 2) ? "iter_beyond" : "iter_partial", 2, (long)s, (long)rng_below(r, 1000));
+        else if (k < 76) plan_op(p, 0, "keys", 2, (long)s, rng_chance(r, 1, 2) ? (long)rng_range(r, 1, 9) : 0L);
+        else if (k < 82) plan_op(p, 0, "values", 2, (long)s, rng_chance(r, 1, 2) ? (long)rng_range(r, 1, 9) : 0L);
+        else if (k < 88) plan_op(p, 0, "pairs", 2, (long)s, rng_chance(r, 1, 2) ? (long)rng_range(r, 1, 9) : 0L);
         else if (k < 95) { if (!ex[1 - s]) { plan_op(p, 0, "dup", 2, (long)s, (long)(1 - s)); ex[1 - s] = 1; } }
         else { plan_op(p, 0, "del", 1, (long)s); ex[s] = 0; }
     }
